@@ -48,12 +48,22 @@ def cases(tier, seed):
                                 # weight values as Python floats or as 0-d arrays (both documented as valid)
                                 wform = "array" if (neq + nunk + len(spec) + len(wcon)) % 2 else "float"
                                 out.append(dict(kind=kind, neq=neq, nunk=nunk, samekeys=samekeys, wdyn=wdyn, wcon=wcon, spec=spec, wform=wform))
+                    # the first equation declares its parameter heterogeneous (a function of the point)
+                    for wdyn in ("scalar", "dict"):
+                        out.append(dict(kind=kind, neq=neq, nunk=nunk, samekeys=False, wdyn=wdyn, wcon="none", spec="none", wform="float", hetero=True))
     out.sort(key=lambda c: (c["neq"] + c["nunk"], c["wdyn"] != "scalar", c["wcon"] != "scalar"))
     return out
 
 
 def coeffs(e, j):
     return 0.5 + 0.3 * e - 0.2 * j + 0.1 * e * j
+
+
+def second(idx, r):
+    """equations with an odd index return a two-component residual"""
+    if idx % 2 == 1:
+        return jnp.stack([jnp.reshape(r, ()), 0.4 * jnp.reshape(r, ()) + 0.2])
+    return jnp.reshape(r, (1,))
 
 
 class RecODE(jinns.loss.ODE):
@@ -64,7 +74,7 @@ class RecODE(jinns.loss.ODE):
         r = 1.7 * jnp.reshape(t, ()) + params_dict.eq_params["a"]
         for j, n in enumerate(self.names):
             r = r + coeffs(self.idx, j) * u_dict[n](t, params_dict.extract_params(n))[0]
-        return jnp.reshape(r, (1,))
+        return second(self.idx, r)
 
 
 class RecStatio(jinns.loss.PDEStatio):
@@ -75,7 +85,7 @@ class RecStatio(jinns.loss.PDEStatio):
         r = 0.3 * x[0] + 0.9 * x[1] + params_dict.eq_params["a"]
         for j, n in enumerate(self.names):
             r = r + coeffs(self.idx, j) * u_dict[n](x, params_dict.extract_params(n))[0]
-        return jnp.reshape(r, (1,))
+        return second(self.idx, r)
 
 
 class RecNonStatio(jinns.loss.PDENonStatio):
@@ -89,7 +99,7 @@ class RecNonStatio(jinns.loss.PDENonStatio):
         r = 1.7 * t[0] + 0.3 * x[0] + 0.9 * x[1] + params_dict.eq_params["a"]
         for j, n in enumerate(self.names):
             r = r + coeffs(self.idx, j) * u_dict[n](t, x, params_dict.extract_params(n))[0]
-        return jnp.reshape(r, (1,))
+        return second(self.idx, r)
 
 
 REC = {"ode": RecODE, "statio": RecStatio, "nonstatio": RecNonStatio}
@@ -116,7 +126,12 @@ def run_case(case):
     nets_ = {n: L.make_u(kind, d, nout[n], deg=2, salt=3 + i) for i, n in enumerate(names)}
     u_dict = {n: nets_[n][0] for n in names}
     pd = jinns.parameters.ParamsDict(nn_params={n: u_dict[n].init_params() for n in names}, eq_params={"a": jnp.asarray(0.7)})
-    dyn = {k: REC[kind](idx=i, names=tuple(names)) for i, k in enumerate(eqkeys)}
+    het = None
+    if case.get("hetero"):
+        het = {"ode": (lambda t, u, p: p.eq_params["a"] + 0.5 * jnp.reshape(t, ())),
+               "statio": (lambda x, u, p: p.eq_params["a"] + 0.5 * x[0]),
+               "nonstatio": (lambda t, x, u, p: p.eq_params["a"] + 0.5 * t[0] - 0.25 * x[1])}[kind]
+    dyn = {k: REC[kind](idx=i, names=tuple(names), eq_params_heterogeneity={"a": het} if (het is not None and i == 0) else None) for i, k in enumerate(eqkeys)}
     b = 3
     pts = L.points(b, nv)
     # per-unknown specifications
@@ -190,8 +205,11 @@ def run_case(case):
             r = r + 0.3 * pts[:, 0] + 0.9 * pts[:, 1]
         else:
             r = r + 1.7 * pts[:, 0] + 0.3 * pts[:, 1] + 0.9 * pts[:, 2]
+        if case.get("hetero") and i == 0:
+            r = r + {"ode": 0.5 * pts[:, 0], "statio": 0.5 * pts[:, 0], "nonstatio": 0.5 * pts[:, 0] - 0.25 * pts[:, -1]}[kind]
         w = wd if not isinstance(wd, dict) else wd[k]
-        exp_dyn += w * float(np.mean(r**2))
+        comps = [r] + ([0.4 * r + 0.2] if i % 2 == 1 else [])
+        exp_dyn += w * float(np.mean(sum(c_**2 for c_ in comps)))
     # ---- oracle: constraints from single losses
     exp = {k: 0.0 for k in KEYS[kind]}
     exp["dyn_loss"] = exp_dyn
